@@ -55,25 +55,15 @@ class TLCResult:
 _PRINT_RE = re.compile(r'^<<"([A-Z_0-9]+)", "(.*)">>$')
 
 
+_ESC_RE = re.compile(r"\\(.)", re.S)
+_ESC_MAP = {"n": "\n", "t": "\t"}
+
+
 def _unescape_tla(s):
     # TLC prints TLA+ strings with \" and \\ escapes (and \n, \t).
-    out = []
-    i = 0
-    while i < len(s):
-        c = s[i]
-        if c == "\\" and i + 1 < len(s):
-            n = s[i + 1]
-            if n == "n":
-                out.append("\n")
-            elif n == "t":
-                out.append("\t")
-            else:
-                out.append(n)
-            i += 2
-        else:
-            out.append(c)
-            i += 1
-    return "".join(out)
+    if "\\" not in s:
+        return s
+    return _ESC_RE.sub(lambda m: _ESC_MAP.get(m.group(1), m.group(1)), s)
 
 
 class Check:
